@@ -149,13 +149,25 @@ func (fl *File) Position(idx Idx) *Position {
 
 	position.Filename = fl.name
 	position.Offset = offset
-	position.Line = strings.Count(src, "\n") + 1
 
-	if index := strings.LastIndex(src, "\n"); index >= 0 {
-		position.Column = offset - index
-	} else {
-		position.Column = len(src) + 1
+	// Count the ECMAScript line terminators (ES5 7.3): LF, CR, CR LF as one, U+2028 and U+2029.
+	line, last := 0, -1
+	for index := 0; index < len(src); index++ {
+		switch {
+		case src[index] == '\r':
+			if index+1 < len(src) && src[index+1] == '\n' {
+				index++
+			}
+			line, last = line+1, index
+		case src[index] == '\n':
+			line, last = line+1, index
+		case strings.HasPrefix(src[index:], "\u2028"), strings.HasPrefix(src[index:], "\u2029"):
+			index += 2
+			line, last = line+1, index
+		}
 	}
+	position.Line = line + 1
+	position.Column = offset - last
 
 	if fl.sm != nil {
 		if f, _, l, c, ok := fl.sm.Source(position.Line, position.Column); ok {
